@@ -13,10 +13,12 @@ crate=${crate:-trust-runtime}
 out="$d/demo_result.txt"; : > "$out"
 tests=""
 for f in "$d"/demo/*.rs; do [ -e "$f" ] || continue; cp "$f" $w/crates/$crate/tests/; tests="$tests --test $(basename "$f" .rs)"; done
+# auxiliary sources some demonstrations need next to the test (C shims, data files)
+for f in "$d"/demo/*.c "$d"/demo/*.st "$d"/demo/*.json; do [ -e "$f" ] && cp "$f" $w/crates/$crate/tests/; done
 if [ -z "$tests" ]; then echo "no demo/*.rs (see README)" >> "$out"; exit 3; fi
-(cd $w && timeout 1800 cargo test --offline -p $crate $tests > /tmp/demo_unchanged.log 2>&1); u=$?
+(cd $w && timeout 1800 cargo test --offline -p $crate $tests -- --test-threads=1 > /tmp/demo_unchanged.log 2>&1); u=$?
 git -C $w apply "$d/patch.diff"
-(cd $w && timeout 1800 cargo test --offline -p $crate $tests > /tmp/demo_changed.log 2>&1); c=$?
+(cd $w && timeout 1800 cargo test --offline -p $crate $tests -- --test-threads=1 > /tmp/demo_changed.log 2>&1); c=$?
 echo "crate=$crate tests=$tests" >> "$out"
 echo "unchanged tree: exit $u; $(grep -h '^test result' /tmp/demo_unchanged.log | tr '\n' ' ')" >> "$out"
 echo "changed tree:   exit $c; $(grep -h '^test result' /tmp/demo_changed.log | tr '\n' ' ')" >> "$out"
